@@ -61,6 +61,22 @@ fn render_group(
 
     let bbox = group.layer_bounding_box().transform(transform)?;
 
+    #[cfg(resvg_verif)]
+    crate::verif::log(|| {
+        format!(
+            "layer_in {:08x} {:08x} {:08x} {:08x} {} {} {} {} {}",
+            bbox.x().to_bits(),
+            bbox.y().to_bits(),
+            bbox.width().to_bits(),
+            bbox.height().to_bits(),
+            group.filters().is_empty() as u8,
+            ctx.max_bbox.x(),
+            ctx.max_bbox.y(),
+            ctx.max_bbox.width(),
+            ctx.max_bbox.height()
+        )
+    });
+
     let mut ibbox = if group.filters().is_empty() {
         // Convert group bbox into an integer one, expanding each side outwards by 2px
         // to make sure that anti-aliased pixels would not be clipped.
@@ -98,7 +114,34 @@ fn render_group(
         tiny_skia::Transform::from_translate(-dx, -dy)
     };
 
+    #[cfg(resvg_verif)]
+    let verif_outer_ts = transform;
+
     let transform = shift_ts.pre_concat(transform);
+
+    #[cfg(resvg_verif)]
+    crate::verif::log(|| {
+        let b = |t: tiny_skia::Transform| {
+            format!(
+                "{:08x} {:08x} {:08x} {:08x} {:08x} {:08x}",
+                t.sx.to_bits(),
+                t.ky.to_bits(),
+                t.kx.to_bits(),
+                t.sy.to_bits(),
+                t.tx.to_bits(),
+                t.ty.to_bits()
+            )
+        };
+        format!(
+            "layer_out {} {} {} {} outer {} local {}",
+            ibbox.x(),
+            ibbox.y(),
+            ibbox.width(),
+            ibbox.height(),
+            b(verif_outer_ts),
+            b(transform)
+        )
+    });
 
     let mut sub_pixmap = tiny_skia::Pixmap::new(ibbox.width(), ibbox.height())
         .log_none(|| log::warn!("Failed to allocate a group layer for: {:?}.", ibbox))?;
